@@ -204,7 +204,8 @@ func (p *policy) getMemSupply(node Node, cpus cpuset.CPUSet) (dram, pmem, hbm id
 		}
 	} else {
 		mems := p.getMemsForCpus(cpus)
-		dram, pmem, hbm = p.splitMemsByType(mems)
+		// only nodes that have memory are memory nodes of the pool (see getAllMems())
+		dram, pmem, hbm = p.splitMemsByType(p.sys.FilterNodes(mems.Members(), system.NodeHasMemory))
 
 		if dram.Size() > 0 {
 			log.Info("    %s DRAM by CPU locality: %s", node.Name(), dram)
